@@ -22,7 +22,7 @@ import gen_specs
 import meshgen as mg
 
 MANIFEST = dict(
-    text='Theorems (props/C19.v, 19). Gradient3D: hex_linear_exact / tet_linear_exact -- for every element geometry, every linear field and '
+    text='Theorems (props/C19.v, 23). Gradient3D: hex_linear_exact / tet_linear_exact -- for every element geometry, every linear field and '
          'every output row the value the hexahedral / simplex kernel writes is the exact gradient, for ANY inversion routine meeting the contract '
          '"A * inv A = I for regular A" (np.linalg.inv as Section variable; satisfiable: adjugate inverse) -- stated about Coq definitions that '
          'py2coq_sym regenerates on every run by symbolic execution of Gradient3D._compute_gradient_hexahedral/_simplex incl. the shape-function '
@@ -34,7 +34,10 @@ MANIFEST = dict(
          'HotSpot.calc: executable Gallina model; hotspot_threshold_exact, hotspot_above_is_threshold, hotspot_labels_are_components '
          '(label equality <=> equivalence closure of shared-node/shared-element adjacency among rows above the threshold), '
          'hotspot_numbered_by_descending_peak (labels 1..K without gaps, smaller label = higher peak), unbounded, all fuel shown sufficient. '
-         'Mesh mapping (scipy griddata) and surface detection (solid angles) are decided by relations on the implementation only (partial).',
+         'Surface3D.is_at_surface on axis-parallel hexahedral blocks of any size (Mesh/Surface.v, hand-written, tied by correspondence with '
+         '_determine_is_at_surface): surface_incident_closed_form (cells containing a grid node, counted over the literal cell list), '
+         'surface_orthogonal_corner_excess (the code\'s half-angle solid-angle formula gives PI/2), surface_flags_exactly_boundary (Esum < 4 PI - 1e-5 <=> node on '
+         'the block boundary). Mesh mapping (scipy griddata) and surface detection on oblique cells are decided by relations on the implementation only (partial).',
     note=common.TB_NOTE + 'py2coq_sym (symbolic executor, ~400 lines) and its spec harness/specs/c19.py are trusted and validated per run by CoqInterval '
          'certificates against gradient_3D.gradient_of; np.linalg.inv / np.linalg.lstsq only as contracts (checked on samples through the results); '
          'pandas plumbing (groupby, sort, de-duplication "keep first", Series alignment) is covered by correspondence/relations, not by theorems; '
@@ -44,7 +47,7 @@ MANIFEST = dict(
          'the except LinAlgError handler, any other guard is rejected by the translator) is checked on the implementation by the linear-field relation on '
          'meshes expressed in length units 1e-9 .. 1e9 and with thin/long elements.',
     technique='Coq proof over symbolically translated element kernels (ring) + hand-written Gallina models; CoqInterval certificates; '
-              'vm_compute correspondence; implementation-only relations for griddata / solid angles',
+              'vm_compute correspondence (HotSpot, Surface block model); implementation-only relations for griddata / solid angles of oblique cells',
     design='6/C19')
 
 GEN = ['GenGradient']
